@@ -67,4 +67,38 @@ def opQuery (quirks : String) (text bind : Str) (exprs : List Str) : String :=
        " | ".intercalate outs ++ " || doc=same")
   | _ => "err:doc"
 
+
+/-- `nsinfo`: the namespace view of the document (model: the in-scope computation of `buildDoc`) - for every element in
+    document order its name and namespace name, its attributes with theirs, its in-scope namespaces -/
+def sortStrings (xs : List String) : List String := (xs.toArray.qsort (· < ·)).toList
+
+def dedupAdj : List String → List String
+  | a :: b :: r => if a == b then dedupAdj (b :: r) else a :: dedupAdj (b :: r)
+  | l => l
+
+def uriShow (u : Str) : String := if u.isEmpty then "~" else encode u
+
+partial def nsInfoNode : XNode → String
+  | .elem q ns as ks =>
+      let own := match q.pre with
+        | some p => ((ns.find? (·.1 == p)).map (·.2)).getD []
+        | none => ((ns.find? (·.1.isEmpty)).map (·.2)).getD []
+      let attrs := sortStrings (as.map fun (aq, _) =>
+        let u := match aq.pre with | some p => ((ns.find? (·.1 == p)).map (·.2)).getD [] | none => []
+        s!"A({encode aq.text}={uriShow u})")
+      let nss := dedupAdj (sortStrings (ns.map fun (p, u) => s!"N({if p.isEmpty then "~" else encode p}={encode u})"))
+      s!"E({encode q.text}={uriShow own})[{String.join attrs}][{String.join nss}]" ++ String.join (ks.map nsInfoNode)
+  | _ => ""
+
+def opNsInfo (quirks : String) (text : Str) : String :=
+  match parseDoc text with
+  | .ok (idoc, []) =>
+    (match buildDoc (quirks.contains 'w') (quirks.contains 'r') idoc with
+     | .error _ => "err:doc"
+     | .ok d => match d.kids.find? (fun | .elem .. => true | _ => false) with
+       | some root => "ok " ++ nsInfoNode root
+       | none => "err:noroot")
+  | .ok (_, _) => "err:rest"
+  | .error x => s!"err:{errClass x}"
+
 end Driver
